@@ -18,6 +18,7 @@
  *                                         flags(1): bit 0 control/smtproutes exists (content follows), bit 1 control/smtproutes.d exists;
  *                                         file = [namelen][name][content]
  *                                         ->  FATAL (err_confn)  |  ROUTE <port> NONE  |  ROUTE <port> <addresses>
+ *   08 <remhost> <dns> <flags routes> <readable> <file>...   smtproute() with all smtproutes.d keys and the settings it leaves (see run_route_x)
  *   06 <name> <dns> <mx records>          ask_dnsmx(name) of lib/qdns.c over the stubbed resolver; mx records = flag(1) [prio hi][prio lo][namelen][name]...
  *                                         ->  RC <n>  |  OK <entry>...
  *   07 <remhost> <dns> <mx records> <flags routes> <params> <oracle> <flag ifaces> <file>...
@@ -50,10 +51,17 @@ static void h_freeifaddrs(struct ifaddrs *p);
 #define connect(a,b,c) h_connect(a,b,c)
 #define getifaddrs(a) h_getifaddrs(a)
 #define freeifaddrs(a) h_freeifaddrs(a)
+static int h_access(const char *p, int m);
 #include "lib/dns_helpers.c"
 #include "lib/ipme.c"
 #include "qremote/conn.c"
+#include <diropen.h>
+#include <match.h>
+#include <mmap.h>
+#include <qremote/starttlsr.h>
+#define access(p,m) h_access(p,m)	/* only smtproutes.c calls it; the repo headers use the attribute of the same name */
 #include "qremote/smtproutes.c"
+#undef access
 #include "lib/control.c"
 #include "lib/match.c"
 #include "lib/fmt.c"
@@ -81,7 +89,33 @@ void write_status_m(const char **s, const unsigned int n) { (void)n; ws_note(s[0
 void log_writen(int p, const char **s) { (void)p; (void)s; }
 void log_write(int p, const char *s) { (void)p; (void)s; }
 void net_conn_shutdown(const enum conn_shutdown_type t) { (void)t; longjmp(h_die, 2); }
-void err_confn(const char **m, void *freebuf) { (void)m; free(freebuf); longjmp(h_die, 3); }
+/* which configuration error: the first words of the message */
+static int f_code;
+void err_confn(const char **m, void *freebuf)
+{
+	static const struct { const char *pfx; int code; } tab[] = {
+		{ "error opening smtproute.d file", 1 }, { "cannot find IP address for static route", 2 }, { "invalid port number", 3 },
+		{ "invalid certificate", 4 }, { "invalid key", 5 }, { "invalid outgoingip6", 7 }, { "invalid outgoingip", 6 },
+		{ "IPv4 mapped address", 8 }, { "error loading smtproute.d file", 9 }, { NULL, 0 } };
+	f_code = 0;
+	for (int i = 0; tab[i].pfx; i++)
+		if (strncmp(m[0], tab[i].pfx, strlen(tab[i].pfx)) == 0) { f_code = tab[i].code; break; }
+	free(freebuf);
+	longjmp(h_die, 3);
+}
+/* access(path, R_OK) of smtproutes.c: the paths listed by the case ([len][path]...) are readable */
+static const unsigned char *a_tab; static size_t a_len;
+static int h_access(const char *p, int m)
+{
+	(void)m;
+	size_t l = strlen(p), o = 0;
+	while (o < a_len) {
+		if (a_tab[o] == l && memcmp(a_tab + o + 1, p, l) == 0) return 0;
+		o += 1 + a_tab[o];
+	}
+	errno = ENOENT;
+	return -1;
+}
 void err_conf(const char *m) { (void)m; longjmp(h_die, 3); }
 const char *clientcertname = "control/clientcert.pem";
 const char *clientkeyname = "control/clientcert.pem";
@@ -396,6 +430,8 @@ static void wipe_dir(const char *base)
 	}
 	snprintf(sub, sizeof(sub), "%s/smtproutes", base);
 	unlink(sub);
+	snprintf(sub, sizeof(sub), "%s/clientkey.pem", base);
+	unlink(sub);
 	rmdir(base);
 }
 /* builds the scratch control directory of a case; returns 0, or -1 (BADCASE) / -2 (harness problem) */
@@ -418,6 +454,7 @@ static int route_setup(const struct field *remhost, const struct field *dnsf, co
 	if (cfd < 0) return -2;
 	int bad = 0;
 	if (rf->p[0] & 1) bad |= write_file(cfd, "smtproutes", rf->p + 1, rf->len - 1);
+	if (rf->p[0] & 4) bad |= write_file(cfd, "clientkey.pem", (const unsigned char *)"x", 1);	/* control/clientkey.pem exists (op 08) */
 	if (rf->p[0] & 2) {
 		mkdirat(cfd, "smtproutes.d", 0700);
 		int dfd = openat(cfd, "smtproutes.d", O_RDONLY | O_DIRECTORY);
@@ -467,6 +504,49 @@ static void run_route(int nf, struct field *f)
 	route_teardown();
 }
 
+/* 08 <remhost> <dns> <flags routes> <readable> <file>...   smtproute() with all keys: flags bit 2 = control/clientkey.pem exists,
+ *    readable = [len][path]... for which access(path, R_OK) succeeds
+ *    ->  FATAL <class>  |  ROUTE <port> <NONE|addresses> N<relay entry has a name> T<expect_tls> C<clientcertname> K<clientkeyname> O<outgoingip> P<outgoingip6> */
+static void run_route_x(int nf, struct field *f)
+{
+	if (nf < 5) { out_str("BADCASE"); return; }
+	for (size_t o = 0; o < f[4].len; o += 1 + f[4].p[o])
+		if (o + 1 + f[4].p[o] > f[4].len || memchr(f[4].p + o + 1, 0, f[4].p[o])) { out_str("BADCASE"); return; }
+	int r = route_setup(&f[1], &f[2], &f[3], nf - 5, f + 5);
+	if (r == -1) { out_str("BADCASE"); return; }
+	if (r == -2) out_str("HARNESS-ERROR");
+	else {
+		a_tab = f[4].p; a_len = f[4].len;
+		char *rh = malloc(f[1].len + 1);		/* exact size */
+		memcpy(rh, f[1].p, f[1].len); rh[f[1].len] = 0;
+		unsigned int port = 4711;
+		memset(&outgoingip, 0, sizeof(outgoingip)); memset(&outgoingip6, 0, sizeof(outgoingip6));
+		free_smtproute_vals();			/* the names as at process start */
+		int j = setjmp(h_die);
+		if (j == 0) {
+			struct ips *mx = smtproute(rh, f[1].len, &port);
+			out_str("ROUTE ");
+			out_int(port);
+			if (mx == NULL) out_str(errno == 0 ? " NONE" : " NONE-ERRNO");
+			else {
+				if (mx->next != NULL || mx->priority != 0) out_str(" ODD");
+				out_str(" "); out_hex(mx->addr, 16 * (size_t)mx->count);
+			}
+			out_str(mx != NULL && mx->name != NULL ? " N1" : " N0");
+			out_str(expect_tls ? " T1" : " T0");
+			out_str(" C"); out_hex(clientcertname, strlen(clientcertname));
+			out_str(" K"); out_hex(clientkeyname, strlen(clientkeyname));
+			out_str(" O"); out_hex(&outgoingip, 16);
+			out_str(" P"); out_hex(&outgoingip6, 16);
+		} else if (j == 3) { out_str("FATAL "); out_int(f_code); }
+		else out_str("DIED");
+		free_smtproute_vals();
+		free(rh);
+		a_tab = NULL; a_len = 0;
+	}
+	route_teardown();
+}
+
 /* 06 <name> <dns> <mx records>:  ask_dnsmx(name, &list)  ->  RC <n>  |  OK <entry>...   (entry ids: see name_id) */
 static void run_dnsmx(int nf, struct field *f)
 {
@@ -487,8 +567,7 @@ static void run_dnsmx(int nf, struct field *f)
  *    ->  DIE <first word of the status line | CONF>  |  ALLME  |  G<port> P ... S ... T ... */
 static void run_main(int nf, struct field *f)
 {
-	if (nf < 8 || f[5].len != 4 || !mx_records_ok(&f[3]) || build_ifaces(&f[7]) != 0
-			|| (f[1].len > 0 && f[1].p[0] == '[')) { out_str("BADCASE"); return; }
+	if (nf < 8 || f[5].len != 4 || !mx_records_ok(&f[3]) || build_ifaces(&f[7]) != 0) { out_str("BADCASE"); return; }
 	int r = route_setup(&f[1], &f[2], &f[4], nf - 8, f + 8);
 	if (r == -1) { out_str("BADCASE"); return; }
 	if (r == -2) { out_str("HARNESS-ERROR"); route_teardown(); return; }
@@ -498,7 +577,7 @@ static void run_main(int nf, struct field *f)
 	char *rh = malloc(f[1].len + 1);
 	memcpy(rh, f[1].p, f[1].len); rh[f[1].len] = 0;
 	struct ips *l = NULL;
-	targetport = 4711;
+	targetport = 25;	/* its value at process start (conn.c); an address literal as target leaves it alone */
 	int j = setjmp(h_die);
 	if (j == 0) {
 		getmxlist(rh, &l);
@@ -566,6 +645,8 @@ static void run_case(int nf, struct field *f)
 		run_tryconn(l, &f[1], &f[2]);
 	} else if (op == 0x04) {
 		run_route(nf, f);
+	} else if (op == 0x08) {
+		run_route_x(nf, f);
 	} else if (op == 0x06) {
 		run_dnsmx(nf, f);
 	} else if (op == 0x07) {
